@@ -252,7 +252,9 @@ async fn run_case(case: &Value, base: &Path, antnode: Option<&str>) -> Value {
 fn main() {
     std::panic::set_hook(Box::new(|_| {}));
     let rt = tokio::runtime::Builder::new_current_thread().enable_all().build().unwrap();
-    let root = std::env::temp_dir().join(format!("verif-c20-{}", std::process::id()));
+    // unique even when several checks run at once in different pid namespaces sharing the scratch dir
+    let nanos = std::time::SystemTime::now().duration_since(std::time::UNIX_EPOCH).map(|d| d.as_nanos()).unwrap_or(0);
+    let root = std::env::temp_dir().join(format!("verif-c20-{}-{nanos}", std::process::id()));
     let antnode = std::env::var("ANTNODE_BIN").ok().filter(|s| !s.is_empty());
     let stdin = std::io::stdin();
     let out = std::io::stdout();
